@@ -402,15 +402,141 @@ func c20Case(r *mon.Run, idx int64) {
 	}
 }
 
+// c20Shapes: originals that are not expressions — case clauses (whose Block renders without braces because of the
+// token before it), declarations, tags, comments, Dicts, qualified identifiers. An unmodified clone (and a clone of
+// the clone, and the original added to a new statement) must render exactly like the original, in the same context.
+var c20Shapes = []struct {
+	name string
+	mk   func() *jen.Statement
+	wrap func(inner *jen.Statement) jen.Code
+}{
+	{"case-block", func() *jen.Statement { return jen.Case(jen.Lit(1)).Block(jen.Id("a").Call(), jen.Return()) }, c20InSwitch},
+	{"case-list-block", func() *jen.Statement {
+		return jen.Case(jen.Lit(1), jen.Lit(2)).Block(jen.Id("a").Call())
+	}, c20InSwitch},
+	{"default-block", func() *jen.Statement { return jen.Default().Block(jen.Id("b").Call()) }, c20InSwitch},
+	{"default-empty-block", func() *jen.Statement { return jen.Default().Block() }, c20InSwitch},
+	{"case-blockfunc", func() *jen.Statement {
+		return jen.Case(jen.Id("x")).BlockFunc(func(g *jen.Group) { g.Id("c").Call(); g.Break() })
+	}, c20InSwitch},
+	{"case-line-comment-block", func() *jen.Statement {
+		return jen.Case(jen.Lit("s")).Block(jen.Comment("nothing"), jen.Fallthrough())
+	}, c20InSwitch},
+	{"select-case", func() *jen.Statement {
+		return jen.Case(jen.Op("<-").Id("ch")).Block(jen.Id("d").Call())
+	}, func(in *jen.Statement) jen.Code {
+		return jen.Func().Id("f").Params().Block(jen.Select().Block(in, jen.Default().Block()))
+	}},
+	{"if-else", func() *jen.Statement {
+		return jen.If(jen.Id("a").Op(">").Lit(1)).Block(jen.Return()).Else().Block(jen.Id("b").Call())
+	}, c20InFunc},
+	{"for-block", func() *jen.Statement {
+		return jen.For(jen.Id("i").Op(":=").Range().Id("xs")).Block(jen.Continue())
+	}, c20InFunc},
+	{"switch-whole", func() *jen.Statement {
+		return jen.Switch(jen.Id("v")).Block(jen.Case(jen.Lit(1)).Block(jen.Id("a").Call()), jen.Default().Block(jen.Id("b").Call()))
+	}, c20InFunc},
+	{"struct-tags", func() *jen.Statement {
+		return jen.Type().Id("T").Struct(jen.Id("A").Int().Tag(map[string]string{"json": "a", "xml": "b"}), jen.Id("B").String().Tag(map[string]string{"k": ""}))
+	}, c20TopLevel},
+	{"field-with-tag", func() *jen.Statement { return jen.Id("A").Int().Tag(map[string]string{"json": "a"}) }, func(in *jen.Statement) jen.Code {
+		return jen.Type().Id("T").Struct(in, jen.Id("Z").Int())
+	}},
+	{"dict-values", func() *jen.Statement {
+		return jen.Var().Id("m").Op("=").Map(jen.String()).Int().Values(jen.Dict{jen.Lit("a"): jen.Lit(1), jen.Lit("b"): jen.Qual("a.b/c", "X")})
+	}, c20TopLevel},
+	{"qual-and-generics", func() *jen.Statement {
+		return jen.Var().Id("v").Qual("a.b/c", "G").Types(jen.Int(), jen.Qual("d.e/c", "T")).Op("=").Qual("fmt", "Sprint").Call(jen.Lit(1.5), jen.LitRune('x'))
+	}, c20TopLevel},
+	{"comment-then-decl", func() *jen.Statement {
+		return jen.Comment("doc").Line().Func().Id("g").Params(jen.Id("a").Op("...").Int()).Params(jen.Error()).Block(jen.Return(jen.Nil()))
+	}, c20TopLevel},
+	{"multi-line-comment", func() *jen.Statement { return jen.Comment("a\nb").Line().Var().Id("w").Int() }, c20TopLevel},
+	{"interface-union", func() *jen.Statement {
+		return jen.Type().Id("N").Interface(jen.Union(jen.Op("~").Int(), jen.Float64()), jen.Id("M").Params().Int())
+	}, c20TopLevel},
+	{"defs", func() *jen.Statement {
+		return jen.Const().Defs(jen.Id("A").Op("=").Iota(), jen.Id("B"), jen.Null(), jen.Id("C"))
+	}, c20TopLevel},
+	{"custom", func() *jen.Statement {
+		return jen.Var().Id("c").Op("=").Custom(jen.Options{Open: "[]int{", Close: "}", Separator: ",", Multi: true}, jen.Lit(1), jen.Lit(2))
+	}, c20TopLevel},
+	{"null-and-empty", func() *jen.Statement {
+		return jen.Var().Id("e").Op("=").Id("s").Index(jen.Empty(), jen.Lit(2)).Add(jen.Null()).Add(nil)
+	}, c20TopLevel},
+}
+
+func c20InFunc(in *jen.Statement) jen.Code { return jen.Func().Id("f").Params().Block(in) }
+func c20TopLevel(in *jen.Statement) jen.Code { return in }
+func c20InSwitch(in *jen.Statement) jen.Code {
+	return jen.Func().Id("f").Params().Block(jen.Switch(jen.Id("v")).Block(jen.Case(jen.Lit(0)).Block(), in))
+}
+
+func c20ShapeCases(r *mon.Run) {
+	for i, sh := range c20Shapes {
+		c := mon.Case{Gen: "shape", Seed: r.Seed, Index: int64(i)}
+		for _, noFormat := range []bool{true, false} {
+			render := func(st *jen.Statement) (string, string) {
+				f := jen.NewFile("p")
+				f.NoFormat = noFormat
+				f.Add(sh.wrap(st))
+				src, fail := renderFile(f)
+				return string(src), fail
+			}
+			orig := sh.mk()
+			want, f0 := render(orig)
+			if f0 != "" {
+				r.Inconclusive("C20 shape " + sh.name + " does not render on this tree: " + f0)
+				continue
+			}
+			views := []struct {
+				what string
+				st   func() *jen.Statement
+			}{
+				{"Clone()", func() *jen.Statement { return orig.Clone() }},
+				{"Clone().Clone()", func() *jen.Statement { return orig.Clone().Clone() }},
+				{"Clone() taken after a render of the original", func() *jen.Statement { render(orig); return orig.Clone() }},
+				{"Clone() of a fresh original, rendered twice", func() *jen.Statement { cl := sh.mk().Clone(); render(cl); return cl }},
+			}
+			for _, v := range views {
+				var got, fail string
+				if p, what := mon.Guard(func() { got, fail = render(v.st()) }); p {
+					fail = "panic: " + what
+				}
+				if fail != "" {
+					r.Violate("clone-render-failure", c, "%s: the original renders but its %s does not: %s", sh.name, v.what, fail)
+				} else if got != want {
+					r.Violate("clone-not-equal-original", c, "%s (NoFormat=%v): an unmodified clone — %s — renders differently from its original\n--- original ---\n%s\n--- clone ---\n%s", sh.name, noFormat, v.what, want, got)
+				}
+				r.Count("shape_clone_views_compared", 1)
+			}
+			// appending to the clone leaves the original alone
+			cl := orig.Clone()
+			cl.Line().Comment("appended to the clone")
+			if again, _ := render(orig); again != want {
+				r.Violate("append-leaks-to-other-handle", c, "%s: after tokens were appended to a clone the original renders differently\n--- before ---\n%s\n--- after ---\n%s", sh.name, want, again)
+			}
+		}
+		r.Eval("shape:"+sh.name, true)
+	}
+}
+
 func runC20(r *mon.Run) {
-	r.SetRule("random histories: 3-8 handles forming a tree by Clone() (one history in twelve: a chain of 35-76 clones of clones; a third of the clones are taken inside a Do callback), 10-60 steps appending 2-8 tokens with unique names (Dot, Op+Id, Add(k), Call, Index, chains — always a valid expression continuation, so handles can be rendered with Render itself) to a random handle, so that clone points with and without spare slice capacity both occur; after every step every handle is rendered with Render and inside a NoFormat File, and tokenised; offline checker against a list model admitting live and snapshot views of the original. non-trivial = history with >=1 clone; distinct by operation sequence")
+	r.SetRule(fmt.Sprintf("%d fixed non-expression originals (case/default clauses followed by Block, select cases, if/else, for, whole switches, struct fields with tags, Dict values, generics, comments, Defs, Custom, Null/Empty) whose unmodified clone, clone of clone, clone taken after a render and clone rendered twice must render byte-identically to the original in the same context, formatted and NoFormat, and whose rendering must survive an append to a clone; then ", len(c20Shapes))+"random histories: 3-8 handles forming a tree by Clone() (one history in twelve: a chain of 35-76 clones of clones; a third of the clones are taken inside a Do callback), 10-60 steps appending 2-8 tokens with unique names (Dot, Op+Id, Add(k), Call, Index, chains — always a valid expression continuation, so handles can be rendered with Render itself) to a random handle, so that clone points with and without spare slice capacity both occur; after every step every handle is rendered with Render and inside a NoFormat File, and tokenised; offline checker against a list model admitting live and snapshot views of the original. non-trivial = history with >=1 clone; distinct by operation sequence")
 	r.Assume("a clone that has been appended to may show its original as it was at clone time or as it is now (both admitted: the statement promises isolation of originals and survival of clone tokens); an unmodified clone must render exactly like its original at every step, as the statement says")
 	c20NegControls(r)
+	c20ShapeCases(r)
 	n := r.Pick(2500, 30000)
 	mon.Parallel(n, func(i int) { c20Case(r, int64(i)) })
 }
 
-func replayC20(r *mon.Run, c mon.Case) { c20Case(r, c.Index) }
+func replayC20(r *mon.Run, c mon.Case) {
+	if c.Gen == "shape" {
+		c20ShapeCases(r)
+		return
+	}
+	c20Case(r, c.Index)
+}
 
 func c20NegControls(r *mon.Run) {
 	var base []cloneStep
